@@ -964,7 +964,7 @@ func c3Structured() []c3Fault {
 		r.Members = []world.Member{{Key: name, Kind: "raw", Raw: string(doc)}, {Key: "signature", Kind: "raw", Raw: `"` + sig + `"`}}
 	})
 	// ---- issuer-chain header
-	for _, m := range []string{"absent", "two", "empty", "badescape", "wrongtype", "garbageder"} {
+	for _, m := range []string{"absent", "two", "three", "empty", "novalues", "nilvalues", "badescape", "wrongtype", "garbageder"} {
 		m := m
 		add("header:"+m, -1, func(rng *rand.Rand, s *world.Spec, q bool) { r, _ := respOf(s, q); r.HdrMode = m })
 	}
